@@ -167,7 +167,15 @@ func (w *World) CloseAll() {
 // genDrops draws a deletion bitmap for a segment of n documents. The returned
 // kind is used for reach statistics.
 func genDrops(c *Chooser, n uint64) (*roaring.Bitmap, string) {
-	switch c.Choose(8, "drops.kind") {
+	switch c.Choose(9, "drops.kind") {
+	case 8:
+		// the first one to three documents
+		b := roaring.New()
+		k := uint64(1 + 2*c.Choose(2, "drops.few"))
+		for d := uint64(0); d < k && d < n; d++ {
+			b.Add(uint32(d))
+		}
+		return b, "few"
 	case 0:
 		return nil, "nil"
 	case 1:
